@@ -12,12 +12,12 @@ import (
 )
 
 type State struct {
-	reach Term
-	mem   map[string]Term // memory / ghost name -> current term
-	ov    map[ssa.Value]*Val
-	epoch int // 0: untouched memories equal their initial value; else: see Ctx.epochMem
+	reach  Term
+	mem    map[string]Term // memory / ghost name -> current term
+	ov     map[ssa.Value]*Val
+	epoch  int             // 0: untouched memories equal their initial value; else: see Ctx.epochMem
 	nonnil map[string]bool // references already checked non-nil on this path
-	br    []brTag // branch stack: reach == And(br[top].parent, br[top].cond) while untouched
+	br     []brTag         // branch stack: reach == And(br[top].parent, br[top].cond) while untouched
 }
 
 type brTag struct{ parent, cond Term }
@@ -224,8 +224,8 @@ type storeRec struct{ base, addr, val Term }
 
 type copyRec struct {
 	e, dBase, dOff, n, sBase, sOff Term
-	zero    bool
-	zeroVal Term
+	zero                           bool
+	zeroVal                        Term
 }
 
 // splitStore: (store base addr value) -> base, addr
